@@ -14,3 +14,63 @@ fn failure_rate_total() {
     };
     let _ = a.failure_rate();
 }
+
+mod tstubs {
+    pub fn is_enabled(_m: &tracing::Metadata<'static>, _i: tracing::subscriber::Interest) -> bool { false }
+    pub fn interest(_c: &'static tracing::callsite::DefaultCallsite) -> tracing::subscriber::Interest { tracing::subscriber::Interest::never() }
+    pub fn dispatch<'a>(_m: &'static tracing::Metadata<'static>, _f: &'a tracing::field::ValueSet<'_>) where 'a: 'a {}
+}
+
+fn now_stub() -> SystemTime {
+    SystemTime::UNIX_EPOCH
+}
+
+/// C17/C18 (complete over both u32 counters and the flag): update_status never overflows, increments the right counter or
+/// restarts it at 1, and never touches the address
+#[kani::proof]
+#[kani::stub(std::time::SystemTime::now, now_stub)]
+fn update_status_total() {
+    let s: u32 = kani::any();
+    let f: u32 = kani::any();
+    let success: bool = kani::any();
+    let mut a = BootstrapAddr { addr: Multiaddr::empty(), success_count: s, failure_count: f, last_seen: SystemTime::UNIX_EPOCH };
+    a.update_status(success);
+    if success {
+        assert!(a.success_count == if s == u32::MAX { 1 } else { s + 1 });
+        assert!(a.failure_count == if s == u32::MAX { 0 } else { f });
+    } else {
+        assert!(a.failure_count == if f == u32::MAX { 1 } else { f + 1 });
+        assert!(a.success_count == if f == u32::MAX { 0 } else { s });
+    }
+}
+
+/// C17/C18 (complete over the four u32 counters; the two timestamps are either equal or ordered): sync never overflows
+#[kani::proof]
+#[kani::stub(tracing::__macro_support::__is_enabled, tstubs::is_enabled)]
+#[kani::stub(tracing::callsite::DefaultCallsite::interest, tstubs::interest)]
+#[kani::stub(tracing::Event::dispatch, tstubs::dispatch)]
+fn sync_total() {
+    let s1: u32 = kani::any();
+    let f1: u32 = kani::any();
+    let s2: u32 = kani::any();
+    let f2: u32 = kani::any();
+    let same_time: bool = kani::any();
+    let t1 = SystemTime::UNIX_EPOCH;
+    let t2 = if same_time { t1 } else { SystemTime::UNIX_EPOCH + std::time::Duration::from_secs(1) };
+    let mut a = BootstrapAddr { addr: Multiaddr::empty(), success_count: s1, failure_count: f1, last_seen: t1 };
+    let b = BootstrapAddr { addr: Multiaddr::empty(), success_count: s2, failure_count: f2, last_seen: t2 };
+    a.sync(&b);
+    if same_time {
+        assert!(a.success_count == s1 && a.failure_count == f1);
+    } else {
+        let s = s1 as u64 + s2 as u64;
+        let f = f1 as u64 + f2 as u64;
+        if s >= u32::MAX as u64 {
+            assert!(a.success_count == 1 && a.failure_count == 0);
+        } else if f >= u32::MAX as u64 {
+            assert!(a.failure_count == 1 && a.success_count == 0);
+        } else {
+            assert!(a.success_count as u64 == s && a.failure_count as u64 == f);
+        }
+    }
+}
